@@ -11,6 +11,7 @@ import (
 	abci "github.com/cometbft/cometbft/abci/types"
 	sdk "github.com/cosmos/cosmos-sdk/types"
 	"github.com/ethereum/go-ethereum/common"
+	"github.com/ethereum/go-ethereum/core/types/goattypes"
 	bitcointypes "github.com/goatnetwork/goat/x/bitcoin/types"
 	goatmodtypes "github.com/goatnetwork/goat/x/goat/types"
 	relayertypes "github.com/goatnetwork/goat/x/relayer/types"
@@ -267,6 +268,17 @@ func (d *robust) height() error {
 	var reqs [][]byte
 	reqs = append(reqs, lp.Locking.Encode()...)
 	reqs = append(reqs, bp.Bridge.Encode()...)
+	if r.Intn(3) == 0 { // membership requests of every shape: unknown, duplicated, the proposer, everybody
+		rr := &goattypes.RelayerRequests{}
+		for k := r.Intn(3); k > 0; k-- {
+			m := a.member(1 + r.Intn(8))
+			rr.Adds = append(rr.Adds, &goattypes.AddVoterRequest{Voter: m.EthAddr(), Pubkey: common.BytesToHash(m.BlsPKH)})
+		}
+		for k := r.Intn(4); k > 0; k-- {
+			rr.Removes = append(rr.Removes, &goattypes.RemoveVoterRequest{Voter: a.member(1 + r.Intn(8)).EthAddr()})
+		}
+		reqs = append(reqs, rr.Encode()...)
+	}
 	votes := c.DefaultVotes(h, lp.Absent)
 	vc, err := a.voteCtx()
 	if err != nil {
